@@ -485,6 +485,10 @@ class Gen(object):
         swallow = 1 if (self.on("swallow") and not self.cfg.no_handlers and t.choose(5) == 1) else 0
         if c in (0, 1, 2):
             kind = {0: "A" if is_async_with else "S", 1: "AI" if is_async_with else "SI", 2: "B"}[c]
+            if self.cfg.__dict__.get("unbound_exit") and t.choose(6) == 5:
+                # a manager whose class provides __exit__ / __aexit__ as a staticmethod: what the with
+                # statement keeps on the value stack is a plain function, not a bound method
+                kind = "UA" if is_async_with else "US"
             es = self.script(is_async_with, "enter")
             xs = self.script(is_async_with, "exit")
             info["mkind"] = kind
